@@ -10,7 +10,7 @@ to a name / returned from a public function whose declared frame differs from th
 import ast
 import re
 
-from ..core.astutil import u, call_name, const, index_elts, iter_stmts, dot_args
+from ..core.astutil import u, call_name, const, index_elts, iter_stmts, dot_args, stable_text
 from ..core.index import FuncInfo, ClassInfo, numpydoc_params
 
 _POSE_RE = re.compile(r"^(?P<a>[A-Za-z](?:[A-Za-z_]*?[A-Za-z0-9])?)2(?P<b>[A-Za-z][A-Za-z_0-9]*?)_?$")
@@ -126,7 +126,7 @@ class Conflict:
         self.func, self.node, self.what = func, node, what
 
     def key(self):
-        return "%s|%s" % (self.func.key, u(self.node)[:160])
+        return "%s|%s" % (self.func.key, stable_text(self.node, self.func.node)[:160])
 
 
 class Frames:
